@@ -33,7 +33,8 @@ _CONTRACTS = ["contract:array_2d_util.array_2d_slim_from", "contract:array_2d_ut
               "contract:array_1d_util.array_1d_native_from", "contract:mask_2d_util.native_index_for_slim_index_2d_from",
               "contract:mask_2d_util.mask_slim_indexes_from"]
 MIN_MONITORS = {"*": dict({c: 1 for c in _CONTRACTS}, **{"array2d.slim": 1, "grid2d.native": 1, "vector.slim": 1,
-                                                         "indexes.native_for_slim": 1, "array1d.roundtrip": 1})}
+                                                         "indexes.native_for_slim": 1, "array1d.roundtrip": 1, "shared_input.two_masks": 1,
+                                                         "shared_input.remasked_structure": 1})}
 
 
 def plan(tier, seed):
@@ -235,6 +236,34 @@ def check_2d(ctx, m, rng, full=True, lite=False):
             zm = m if ref_nat.ndim == 2 else m[:, :, None]
             ctx.check(np.array_equal(_np(Dv.native), np.where(zm, 0.0, ref_nat)) and np.array_equal(_np(Dv.slim), ref_nat[~m]),
                       "derived.native_zero_fill", mask=m, how=nm, got=lambda: _np(Dv.native))
+    if full:
+        # one native input reused for two structures with different masks, and a native-stored structure re-masked: each
+        # structure must list the values of *its* unmasked pixels (a constructor that masks its input in place would zero
+        # pixels that the second mask still needs)
+        m2 = np.roll(m, 1, axis=1)
+        if np.array_equal(m2, m) or m2.all():
+            m2 = ~m if m.any() else m2
+        if not np.array_equal(m2, m) and not m2.all():
+            mask2 = aa.Mask2D(mask=m2.copy(), pixel_scales=(1.0, 2.0))
+            pristine = 1.0 + idx + 0.25 * rng.random((H, W))
+            for store_native in (False, True):
+                shared = pristine.copy()
+                A1 = aa.Array2D(values=shared, mask=mask, store_native=store_native)
+                A2 = aa.Array2D(values=shared, mask=mask2, store_native=store_native)
+                ok12 = (np.array_equal(_np(A2.slim), pristine[~m2]) and np.array_equal(_np(A2.native), np.where(m2, 0.0, pristine))
+                        and np.array_equal(_np(A1.slim), pristine[~m]) and np.array_equal(_np(A1.native), np.where(m, 0.0, pristine)))
+                ctx.check(ok12, "shared_input.two_masks", mask=m, second_mask=m2, store_native=store_native, got=lambda: [_np(A1.slim), _np(A2.slim)])
+                gsh = np.stack([pristine, -2.0 * pristine], axis=-1)
+                gpr = gsh.copy()
+                G1 = aa.Grid2D(values=gsh, mask=mask, store_native=store_native)
+                G2 = aa.Grid2D(values=gsh, mask=mask2, store_native=store_native)
+                ctx.check(np.array_equal(_np(G2.slim), gpr[~m2]) and np.array_equal(_np(G1.slim), gpr[~m]), "shared_input.two_masks", structure="Grid2D",
+                          mask=m, second_mask=m2, store_native=store_native)
+            B1 = aa.Array2D(values=pristine.copy(), mask=aa.Mask2D(mask=np.zeros((H, W), bool), pixel_scales=(1.0, 2.0)), store_native=True)
+            C1 = aa.Array2D(values=B1, mask=mask)            # re-masking a native-stored structure
+            C2 = aa.Array2D(values=B1, mask=mask2)
+            ctx.check(np.array_equal(_np(C1.slim), pristine[~m]) and np.array_equal(_np(C2.slim), pristine[~m2]) and np.array_equal(_np(B1.native), pristine),
+                      "shared_input.remasked_structure", mask=m, second_mask=m2, got=lambda: [_np(C1.slim), _np(C2.slim)])
     di = mask.derive_indexes
     nfs = _np(di.native_for_slim)
     ctx.check(np.array_equal(nfs, np.argwhere(~m)), "indexes.native_for_slim", mask=m, got=nfs)
